@@ -3,6 +3,7 @@ package main
 // Built-in treatment of library functions that the translation abstracts (DESIGN §2.3 "dropped / abstracted").
 
 import (
+	"os"
 	"fmt"
 	"go/token"
 	"go/types"
@@ -104,6 +105,41 @@ func (c *Ctx) intrinsicPattern(s *State, fr *Frame, x ssa.Instruction, fn *ssa.F
 			return Scalar{eq, SBool, types.Typ[types.Bool]}, true
 		}
 		return nil, false
+	}
+	// slices.SortFunc on a statically 2-element slice with a comparator under contract: pdqsort's insertion-sort base
+	// case swaps iff cmp(s[1], s[0]) < 0 (stdlib implementation detail, recorded as an assumption).
+	if os.Getenv("GOVC_DEBUG") != "" && strings.Contains(full, "SortFunc") {
+		fmt.Fprintf(os.Stderr, "DEBUG sortfunc full=%q args=%T %T %+v\n", full, args[0], args[1], args[0])
+	}
+	if (full == "slices.SortFunc" || strings.HasPrefix(full, "slices.SortFunc[")) && len(args) == 2 {
+		sl, ok1 := args[0].(SliceV)
+		var cmpFn *ssa.Function
+		switch f := args[1].(type) {
+		case ClosureV:
+			cmpFn, _ = f.Fn.(*ssa.Function)
+		}
+		if n, isLit := isNumeral(sl.Len); ok1 && isLit && n.Int64() == 2 && cmpFn != nil {
+			if fc := c.eng.contractFor(cmpFn); fc != nil {
+				c.assumptions["slices.SortFunc on 2 elements swaps iff cmp(s[1], s[0]) < 0 (insertion-sort base case of the Go standard library)"] = true
+				et := sl.Ty.Underlying().(*types.Slice).Elem()
+				l0 := c.elemAddr(s, sl.Arr, c.elemIdx(sl.Off, c.ar.idx(0)), et)
+				l1 := c.elemAddr(s, sl.Arr, c.elemIdx(sl.Off, c.ar.idx(1)), et)
+				e0 := c.loadAt(s, nil, l0, et)
+				e1 := c.loadAt(s, nil, l1, et)
+				names := make([]string, len(cmpFn.Params))
+				for i, p := range cmpFn.Params {
+					names[i] = p.Name()
+				}
+				s.calllog = append(s.calllog, relFuncName(cmpFn))
+				r := c.applyContract(s, fr, x, fc, relFuncName(cmpFn), names, "", []Val{e1, e0}, cmpFn.Signature, cmpFn.Pkg).(Scalar)
+				ii, _ := isIntType(types.Typ[types.Int])
+				lt := c.ar.cmp(token.LSS, r.T, c.ar.litI(0, ii), ii)
+				cond := c.bind(s, "sortswap", SBool, lt)
+				c.storeAt(s, l0, et, c.iteVal(s, cond, e1, e0))
+				c.storeAt(s, l1, et, c.iteVal(s, cond, e0, e1))
+				return nil, true
+			}
+		}
 	}
 	if strings.HasPrefix(full, "(*sync.Once).") || strings.HasPrefix(full, "(*sync.WaitGroup).") || strings.HasPrefix(full, "(*sync.Cond).") {
 		unsup("sync primitive %s", full)
